@@ -105,6 +105,7 @@ pub fn parse_action(s: &str) -> Option<Action> {
         "Settle0" => Action::Settle0(n(0)?),
         "Isolate" => Action::Isolate(n(0)?),
         "SetPrio" => Action::SetPrio(n(0)?, n(1)?),
+        "HoldApply" => Action::HoldApply(b(0)?),
         "DropAll" => Action::DropAll,
         _ => return None,
     })
